@@ -177,7 +177,10 @@ def check_scorer(rec, spec, X, label, t, pp, cuts=None, record=True):
     TX = apply_transform(X, t)
     perm = t["perm"] if t["type"] == "perm" else ident
     tcuts = [mirror(c, n) for c in cuts] if t["type"] == "reverse" else cuts
-    key = f"scorer:{spec['name']}:{tlabel(t)}"
+    fam = spec["name"]
+    for variant in ("(0.0)", "((0,1))", "(percol,matrix)", "(percol)", "()"):       # one key per scorer class, not per parameter
+        fam = fam.replace(variant, "")
+    key = f"scorer:{fam}:{tlabel(t)}"
     inp = {"level": "scorer", "scorer": spec["name"], "transform": t, "pp": pp, "X": X}
     try:
         base, e0 = safe_eval(spec["make"](ident).fit(X), cuts)
